@@ -1,7 +1,11 @@
 import Props.C10
+import Props.C02
+import Props.C05
 #print axioms Webauthn.Props.C10.bits
 #print axioms Webauthn.Props.C10.graph
 #print axioms Webauthn.Props.C10.reserved_ignored
 #print axioms Webauthn.Props.C10.backup
 #print axioms Webauthn.Props.C10.auth_gate
 #print axioms Webauthn.Props.C10.layout
+#print axioms Webauthn.Props.C02.sound
+#print axioms Webauthn.Props.C05.reg_fidelity
